@@ -19,6 +19,7 @@ fn main() {
         "faults" => shpverif::cmd_faults::run(&a),
         "foreign" => shpverif::cmd_foreign::run(&a),
         "types" => shpverif::cmd_types::run(&a),
+        "rings" => shpverif::cmd_rings::run(&a),
         c => {
             eprintln!("unknown command {}", c);
             std::process::exit(2);
